@@ -134,8 +134,7 @@ func TestExhaustiveSmallQueues(t *testing.T) {
 						for mode := 0; mode < exBuildModes; mode++ {
 							for i1 := range ops {
 								run := func(second *op) {
-									w := newWorld(t)
-									w.light = true
+									w := newLightWorld(t)
 									exBuild(w, parts, mode)
 									w.apply(ops[i1])
 									if second != nil {
@@ -191,8 +190,7 @@ func TestExhaustivePutThenRead(t *testing.T) {
 		for mode := 0; mode < exBuildModes; mode++ {
 			for _, put := range puts {
 				for i := range ops {
-					w := newWorld(t)
-					w.light = true
+					w := newLightWorld(t)
 					exBuild(w, parts, mode)
 					w.apply(put)
 					w.apply(ops[i])
